@@ -298,6 +298,10 @@ c13_vrow([W|Ws], V, [O|Os0], Os) :- compare(O,V,W), c13_vrow(Ws, V, Os0, Os).
 c13_f3(S1, r([], [R1, R2], [skip,skip], [])) :-
     c13_lis(S1, [], L2), c13_lis(S1, [z], L1), A = f(S1,L1), B = f(L2,L2),
     c13_r(A,B,R1), c13_r(B,A,R2).
+c13_scan(Ns, R) :- ( c13_mem(N, Ns), c13_t3(N) -> R = found(N) ; R = none ).
+c13_mem(X, [X|_]).
+c13_mem(X, [_|Xs]) :- c13_mem(X, Xs).
+c13_t3(N) :- X is 10^N-1, number_chars(X, S), c13_lis(S, [], L2), c13_lis(S, [z], L1), f(S,L1) == f(L2,L2).
 c13_vals([], []).
 c13_vals([_-V|Ps], [V|Vs]) :- c13_vals(Ps, Vs).
 """
@@ -1045,6 +1049,18 @@ def make_tabu_case(cid, n):
             "prolog": "c13_f3(\"a…\"(%d chars), R)" % n, "n": n}
 
 
+def make_scan_case(cid, ns):
+    """fresh machine; for every N of `ns` (ascending; backtracking resets the heap between them):
+    S = a string of N nines made by number_chars/2 (allocated first, low in the heap), L2 = the
+    same characters as run-time list cells, L1 = those characters followed by z; reports the first
+    N for which f(S,L1) == f(L2,L2) succeeds. C13_longer_list_gt: it must fail for every N."""
+    lines = ["R\t%s.r" % cid,
+             "L\t%s.l\tuser\t%s" % (cid, LOAD_LINE_BODY),
+             "Q\t%s\t1\tc13_scan([%s], R)." % (cid, ",".join(str(n) for n in ns))]
+    return {"id": cid, "kind": "scan", "terms": [], "vars": [], "impl": lines, "family": "tabu", "ns": ns,
+            "prolog": "c13_scan([%d..%d: %d lengths], R)" % (ns[0], ns[-1], len(ns))}
+
+
 def generate(ctx):
     rng, tier = ctx["rng"], ctx["tier"]
     quick = tier == "quick"
@@ -1120,6 +1136,23 @@ def generate(ctx):
         cases.append(make_tabu_case("u%d" % k, int(n)))
         k += 1
         n *= 1.22
+    # the same search done inside Prolog, densely: three consecutive lengths, then +8 %; the window
+    # of colliding lengths is [~1.4, ~2.3] x (heap top of the fresh machine in cells: 14700..24500
+    # with this helper program, 1970..3250 with a 6-line program) and nearly every length inside it
+    # collides; a case costs about sum(N) x 10..25 microseconds
+    ns, n = [], 20.0
+    while n < (30000 if quick else 130000):
+        ns.extend([int(n), int(n) + 1, int(n) + 2])
+        n = n * 1.08 + 3
+    chunk, cost = [], 0
+    for v in ns + [None]:
+        if v is None or (chunk and cost + v > 100000):
+            cases.append(make_scan_case("w%d" % k, chunk))
+            k += 1
+            chunk, cost = [], 0
+        if v is not None:
+            chunk.append(v)
+            cost += v
     # cases expected to crash the process (open finding C13-2) go last in their worker
     return [c for c in cases if not c.get("f2")] + [c for c in cases if c.get("f2")]
 
@@ -1267,6 +1300,26 @@ def run(ctx):
                                       if x[0] == "seg" and y[0] == "seg")
         if rep is not None:
             print("replay %s\n  impl : %s" % (c["prolog"], ans))
+        if c["kind"] == "scan":
+            d = parse_bindings(ans) or {}
+            r = d.get("R")
+            if r == "'none'":
+                agree += 1
+                distinct.add(("scan", c["ns"][0], c["ns"][-1]))
+            elif r is not None and r.startswith("'found'("):
+                findings.append(finding("violation",
+                                        {"family": "tabu", "shape": "string-byte-offset-meets-list-cell-index",
+                                         "defect": "different-terms-compare-equal"},
+                                        "f(S,L1) == f(L2,L2) succeeds for S a string of N nines, L2 the same characters as list "
+                                        "cells, L1 = those characters followed by z, N = %s" % r[8:-1], c))
+            elif needs_retry(ans) and not ans.startswith(("panic(", "abort(")) and ans != "timeout":
+                stats["infrastructure_skipped"] += 1
+            else:
+                stats["impl_not_ok"] += 1
+                findings.append(finding("violation", {"family": "tabu", "defect": "no-answer", "outcome": ans.split("(")[0],
+                                                      "terms": c["prolog"]},
+                                        "the scan query did not produce an answer: %s" % ans[:200], c))
+            continue
         if b is None and needs_retry(ans) and ans != "timeout" and not ans.startswith(("panic(", "abort(")):
             stats["infrastructure_skipped"] += 1     # helper program could not be (re)loaded
             continue
@@ -1449,7 +1502,7 @@ def run(ctx):
     return {
         "evaluations": evaluations,
         "distinct_nontrivial": len(distinct),
-        "rule": "groups of 2 (pair) / 3 (triple) / up to 14 (sort, keysort) terms: a random term (depth<=3) over variables, boundary integers, rationals, doubles, ASCII/2/3/4-byte-UTF-8 atoms, compounds, lists and strings in all heap representations (literal, partial string, run-time list cells, '.'/2 structure, multi-segment and offset strings), the other members mostly mutations of it (neighbouring leaf, changed arity/name/argument, representation-only change); every ordered pair is compared with compare/3 and the six operators in call and execute form; non-trivial = the two terms are of the same kind but not identical, or identical in different representations; distinct by canonical text pair",
+        "rule": "groups of 2 (pair) / 3 (triple) / up to 14 (sort, keysort) terms: a random term (depth<=3) over variables, boundary integers, rationals, doubles, ASCII/2/3/4-byte-UTF-8 atoms, compounds, lists and strings in all heap representations (literal, partial string, run-time list cells, '.'/2 structure, multi-segment and offset strings), the other members mostly mutations of it (neighbouring leaf, changed arity/name/argument, representation-only change); a numeric-boundary family (an integer around 2^53..2^56 / 2^63 / 2^64 / bignum against rationals within 1/d of it and its neighbours), a family scanning string lengths for visited-pair key collisions; every ordered pair is compared with compare/3 and the six operators in call and execute form, through the inference-counted and the Default* instruction variants; non-trivial = the two terms are of the same kind but not identical, or identical in different representations; distinct by canonical text pair",
         "samples": samples,
         "traces_validated_against_impl": agree,
         "disagreements_checked": evaluations - agree,
